@@ -720,4 +720,662 @@ Proof.
   split; [exact Hb|]. intros id Hget. specialize (Hc ev Hin).
   destruct Hev as [->| ->]; cbn [DynDefs.refused_sound] in Hc; exact (Hc l id Hmem Hget).
 Qed.
+
+(* ================================================================ Part D *)
+(* the table invariant, split into a part that does not mention the framework and a part that ties
+   the tables to the live arguments *)
+Definition core (e : denc) : Prop :=
+  (forall id v, tbl_var (e_a2v e) id = Some v -> nth_error (e_vars e) v = Some (VArg id)) /\
+  (e_sem e <> DST -> forall id v, tbl_var (e_a2v e) id = Some v -> nth_error (e_vars e) (S v) = Some (VDisj id)) /\
+  (forall id sv, tbl_var (e_a2s e) id = Some sv -> nth_error (e_vars e) sv = Some (VSel id)) /\
+  (forall x, In x (e_assum e) <-> exists id sv, tbl_var (e_a2s e) id = Some sv /\ x = zlit sv) /\
+  NoDup (e_assum e).
+Definition live_tbl (af : fw) (e : denc) : Prop :=
+  length (e_a2v e) = length (slots (ls af)) /\ length (e_a2s e) = length (slots (ls af)) /\
+  (forall id, has_argument_with_id L af id = true <-> tbl_var (e_a2v e) id <> None) /\
+  (forall id, tbl_var (e_a2s e) id <> None -> tbl_var (e_a2v e) id <> None).
+
+Lemma tables_ok_split af e : tables_ok L af e <-> core e /\ live_tbl af e.
+Proof.
+  split.
+  - intros [H1 H2 H3 H4 H5 H6 H7 H8 H9]. unfold core, live_tbl. tauto.
+  - intros [(C1 & C2 & C3 & C4 & C5) (L1 & L2 & L3 & L4)]. split; assumption.
+Qed.
+
+Lemma zlit_inj a b : zlit a = zlit b -> a = b.
+Proof. unfold zlit. apply Nat2Z.inj. Qed.
+
+Lemma nth_error_lt {A} (l : list A) i x : nth_error l i = Some x -> i < length l.
+Proof. intros H. apply nth_error_Some. congruence. Qed.
+
+Lemma core_retire e id s p :
+  core e -> tbl_var (e_a2s e) id = Some s -> position (Z.eqb (zlit s)) (e_assum e) = Some p ->
+  core (enc_with e (e_a2v e) (set_nth id None (e_a2s e)) (set_nth s VIgnored (e_vars e))
+                 (swap_remove p (e_assum e))).
+Proof.
+  intros (C1 & C2 & C3 & C4 & C5) Hs Hp. unfold core, enc_with.
+  cbn [e_sem e_a2v e_a2s e_vars e_assum].
+  pose proof (C3 _ _ Hs) as Hts. pose proof (tbl_var_lt _ _ _ Hs) as Hid.
+  destruct (position_Some _ _ _ 0%Z Hp) as [Hpl Hpe]. apply Z.eqb_eq in Hpe.
+  assert (Hother : forall id' sv, tbl_var (set_nth id None (e_a2s e)) id' = Some sv ->
+                     id' <> id /\ tbl_var (e_a2s e) id' = Some sv /\ sv <> s).
+  { intros id' sv H. destruct (Nat.eq_dec id' id) as [->|Hne].
+    - rewrite tbl_var_set_eq in H by assumption. discriminate.
+    - rewrite tbl_var_set_neq in H by congruence. split; [assumption|]. split; [assumption|].
+      intros ->. pose proof (C3 _ _ H) as H'. congruence. }
+  repeat split.
+  - intros id' v H. pose proof (C1 _ _ H) as H'.
+    rewrite nth_error_set_nth_neq; [assumption|]. intros ->. congruence.
+  - intros Hsem id' v H. pose proof (C2 Hsem _ _ H) as H'.
+    rewrite nth_error_set_nth_neq; [assumption|]. intros ->. congruence.
+  - intros id' sv H. destruct (Hother _ _ H) as (_ & H' & Hne).
+    rewrite nth_error_set_nth_neq by congruence. apply C3. assumption.
+  - rewrite (swap_remove_In p 0%Z x _ Hpl C5). rewrite <- Hpe. intros [Hin Hne].
+    apply C4 in Hin. destruct Hin as (id' & sv & H & ->). exists id', sv. split; [|reflexivity].
+    rewrite tbl_var_set_neq; [assumption|]. intros <-. rewrite Hs in H. injection H as <-. congruence.
+  - intros (id' & sv & H & ->). destruct (Hother _ _ H) as (_ & H' & Hne).
+    rewrite (swap_remove_In p 0%Z _ _ Hpl C5). rewrite <- Hpe. split.
+    + apply C4. exists id', sv. auto.
+    + intros E. apply zlit_inj in E. congruence.
+  - apply swap_remove_NoDup; assumption.
+Qed.
+
+Lemma core_install e id vars' sv :
+  core e -> tbl_var (e_a2s e) id = None -> id < length (e_a2s e) ->
+  length (e_vars e) <= sv -> nth_error vars' sv = Some (VSel id) ->
+  (forall i, i < length (e_vars e) -> nth_error vars' i = nth_error (e_vars e) i) ->
+  core (enc_with e (e_a2v e) (set_nth id (Some sv) (e_a2s e)) vars' (e_assum e ++ [zlit sv])).
+Proof.
+  intros (C1 & C2 & C3 & C4 & C5) Hnone Hid Hge Hnew Hold. unfold core, enc_with.
+  cbn [e_sem e_a2v e_a2s e_vars e_assum].
+  assert (Hcase : forall id' sv', tbl_var (set_nth id (Some sv) (e_a2s e)) id' = Some sv' ->
+            (id' = id /\ sv' = sv) \/ (id' <> id /\ tbl_var (e_a2s e) id' = Some sv')).
+  { intros id' sv' H. destruct (Nat.eq_dec id' id) as [->|Hne].
+    - rewrite tbl_var_set_eq in H by assumption. injection H as <-. left. auto.
+    - rewrite tbl_var_set_neq in H by congruence. right. auto. }
+  repeat split.
+  - intros id' v H. pose proof (C1 _ _ H) as H'. rewrite Hold; [assumption|]. eapply nth_error_lt; eassumption.
+  - intros Hsem id' v H. pose proof (C2 Hsem _ _ H) as H'. rewrite Hold; [assumption|]. eapply nth_error_lt; eassumption.
+  - intros id' sv' H. destruct (Hcase _ _ H) as [[-> ->]|[Hne H']]; [assumption|].
+    pose proof (C3 _ _ H') as H''. rewrite Hold; [assumption|]. eapply nth_error_lt; eassumption.
+  - rewrite in_app_iff. intros [Hin|[<-|[]]].
+    + apply C4 in Hin. destruct Hin as (id' & sv' & H & ->). exists id', sv'. split; [|reflexivity].
+      rewrite tbl_var_set_neq; [assumption|]. intros <-. congruence.
+    + exists id, sv. split; [|reflexivity]. apply tbl_var_set_eq. assumption.
+  - intros (id' & sv' & H & ->). rewrite in_app_iff. destruct (Hcase _ _ H) as [[-> ->]|[Hne H']].
+    + right. left. reflexivity.
+    + left. apply C4. exists id', sv'. auto.
+  - apply NoDup_snoc; [assumption|]. intros Hin. apply C4 in Hin. destruct Hin as (id' & sv' & H & E).
+    apply zlit_inj in E. subst sv'. pose proof (nth_error_lt _ _ _ (C3 _ _ H)). lia.
+Qed.
+
+Lemma core_push_arg e vars' v :
+  core e -> length (e_a2v e) = length (e_a2s e) ->
+  length (e_vars e) <= v -> nth_error vars' v = Some (VArg (length (e_a2v e))) ->
+  (e_sem e <> DST -> nth_error vars' (S v) = Some (VDisj (length (e_a2v e)))) ->
+  (forall i, i < length (e_vars e) -> nth_error vars' i = nth_error (e_vars e) i) ->
+  core (enc_with e (e_a2v e ++ [Some v]) (e_a2s e ++ [None]) vars' (e_assum e)).
+Proof.
+  intros (C1 & C2 & C3 & C4 & C5) Hlen Hge Hnew Hdisj Hold. unfold core, enc_with.
+  cbn [e_sem e_a2v e_a2s e_vars e_assum].
+  assert (Hcase : forall id' v', tbl_var (e_a2v e ++ [Some v]) id' = Some v' ->
+            (id' = length (e_a2v e) /\ v' = v) \/ tbl_var (e_a2v e) id' = Some v').
+  { intros id' v' H. destruct (Nat.lt_trichotomy id' (length (e_a2v e))) as [Hlt|[->|Hgt]].
+    - rewrite tbl_var_snoc_old in H by assumption. right. assumption.
+    - rewrite tbl_var_snoc_new in H. injection H as <-. left. auto.
+    - rewrite tbl_var_snoc_beyond in H by assumption. discriminate. }
+  assert (Hsel : forall id' sv, tbl_var (e_a2s e ++ [None]) id' = Some sv <-> tbl_var (e_a2s e) id' = Some sv).
+  { intros id' sv. destruct (Nat.lt_trichotomy id' (length (e_a2s e))) as [Hlt|[->|Hgt]].
+    - rewrite tbl_var_snoc_old by assumption. tauto.
+    - rewrite tbl_var_snoc_new. split; [discriminate|]. intros H. apply tbl_var_lt in H. lia.
+    - rewrite tbl_var_snoc_beyond by assumption. split; [discriminate|]. intros H. apply tbl_var_lt in H. lia. }
+  repeat split.
+  - intros id' v' H. destruct (Hcase _ _ H) as [[-> ->]|H']; [assumption|].
+    pose proof (C1 _ _ H') as H''. rewrite Hold; [assumption|]. eapply nth_error_lt; eassumption.
+  - intros Hsem id' v' H. destruct (Hcase _ _ H) as [[-> ->]|H']; [auto|].
+    pose proof (C2 Hsem _ _ H') as H''. rewrite Hold; [assumption|]. eapply nth_error_lt; eassumption.
+  - intros id' sv H. apply Hsel in H. pose proof (C3 _ _ H) as H''.
+    rewrite Hold; [assumption|]. eapply nth_error_lt; eassumption.
+  - intros Hin. apply C4 in Hin. destruct Hin as (id' & sv & H & ->). exists id', sv. split; [apply Hsel; assumption|reflexivity].
+  - intros (id' & sv & H & ->). apply C4. exists id', sv. split; [apply Hsel; assumption|reflexivity].
+  - assumption.
+Qed.
+
+Lemma core_kill_arg e id v :
+  core e -> tbl_var (e_a2v e) id = Some v ->
+  core (enc_with e (set_nth id None (e_a2v e)) (e_a2s e) (set_nth v VIgnored (e_vars e)) (e_assum e)).
+Proof.
+  intros (C1 & C2 & C3 & C4 & C5) Hv. unfold core, enc_with.
+  cbn [e_sem e_a2v e_a2s e_vars e_assum].
+  pose proof (C1 _ _ Hv) as Htv. pose proof (tbl_var_lt _ _ _ Hv) as Hid.
+  assert (Hother : forall id' v', tbl_var (set_nth id None (e_a2v e)) id' = Some v' ->
+                     id' <> id /\ tbl_var (e_a2v e) id' = Some v' /\ v' <> v).
+  { intros id' v' H. destruct (Nat.eq_dec id' id) as [->|Hne].
+    - rewrite tbl_var_set_eq in H by assumption. discriminate.
+    - rewrite tbl_var_set_neq in H by congruence. split; [assumption|]. split; [assumption|].
+      intros ->. pose proof (C1 _ _ H) as H'. congruence. }
+  repeat split; try assumption.
+  - intros id' v' H. destruct (Hother _ _ H) as (_ & H' & Hne).
+    rewrite nth_error_set_nth_neq by congruence. apply C1. assumption.
+  - intros Hsem id' v' H. destruct (Hother _ _ H) as (_ & H' & Hne).
+    pose proof (C2 Hsem _ _ H') as H''. rewrite nth_error_set_nth_neq; [assumption|]. intros E. congruence.
+  - intros id' sv H. pose proof (C3 _ _ H) as H'. rewrite nth_error_set_nth_neq; [assumption|]. intros E. congruence.
+  - apply C4.
+  - apply C4.
+Qed.
+
+(* ---- the monadic operations, as table transformers *)
+Lemma remove_selector_spec e s :
+  okm (remove_selector e s)
+      (fun e' => exists p, position (Z.eqb (zlit s)) (e_assum e) = Some p /\
+         e' = enc_with e (e_a2v e) (e_a2s e) (set_nth s VIgnored (e_vars e)) (swap_remove p (e_assum e))).
+Proof.
+  unfold remove_selector. destruct (Nat.ltb _ _); [|apply okm_panic].
+  apply okm_bind_any. intros _. destruct (position _ _) as [p|]; [|apply okm_panic].
+  apply okm_ret. exists p. auto.
+Qed.
+
+Definition allocated (vars : list vtype) (t : vtype) (r : list vtype * nat) : Prop :=
+  length vars <= snd r /\ nth_error (fst r) (snd r) = Some t /\
+  (forall i, i < length vars -> nth_error (fst r) i = nth_error vars i) /\
+  length (fst r) = S (snd r).
+
+Lemma new_solver_var_spec vars t : okm (new_solver_var vars t) (allocated vars t).
+Proof.
+  unfold new_solver_var. apply okm_bind_any. intros nv. apply okm_ret.
+  destruct (alloc_var vars nv t) as [vars' v] eqn:E.
+  destruct (alloc_var_spec _ _ _ _ _ E) as (_ & H2 & H3 & H4 & H5 & _). unfold allocated. cbn [fst snd]. auto.
+Qed.
+
+(* the allocation is above everything the SAT session has seen (clauses, assumptions, reserve):
+   this is the repair of D8 *)
+Lemma Done_inj {A} (a b : A) (s s' : Prog.st) : Done a s = Done b s' -> a = b /\ s = s'.
+Proof. intros E. injection E as -> ->. auto. Qed.
+
+Lemma new_solver_var_run vars t ps vars' v ps' :
+  new_solver_var vars t ps = Done (vars', v) ps' ->
+  alloc_var vars (session_n_vars (sess ps)) t = (vars', v) /\ sess ps' = sess ps.
+Proof.
+  unfold new_solver_var, bind, n_vars, ret. intros E. apply Done_inj in E. destruct E as [E1 <-].
+  split; [exact E1|reflexivity].
+Qed.
+
+Lemma new_solver_var_fresh vars t ps vars' v ps' :
+  new_solver_var vars t ps = Done (vars', v) ps' -> session_n_vars (sess ps) < v /\ sess ps' = sess ps.
+Proof.
+  intros E. destruct (new_solver_var_run _ _ _ _ _ _ E) as [E1 Hs]. split; [|exact Hs].
+  destruct (alloc_var_spec _ _ _ _ _ E1) as (H & _). exact H.
+Qed.
+
+Lemma alloc_arg_vars_spec sm vars id ps vars' v ps' :
+  alloc_arg_vars sm vars id ps = Done (vars', v) ps' ->
+  length vars <= v /\ session_n_vars (sess ps) < v /\ nth_error vars' v = Some (VArg id) /\
+  (sm <> DST -> nth_error vars' (S v) = Some (VDisj id)) /\
+  (forall i, i < length vars -> nth_error vars' i = nth_error vars i).
+Proof.
+  unfold alloc_arg_vars. intros E. apply bind_Done in E. destruct E as ([vars1 v1] & ps1 & E1 & E2).
+  destruct (new_solver_var_fresh _ _ _ _ _ _ E1) as [Hf1 Hs1].
+  pose proof (new_solver_var_spec _ _ _ _ _ E1) as (A1 & A2 & A3 & A4). cbn [fst snd] in *.
+  destruct sm.
+  2:{ apply Done_inj in E2. destruct E2 as [E2 _]. apply pair_equal_spec in E2. destruct E2 as [<- <-].
+      repeat split; auto. congruence. }
+  all: apply bind_Done in E2; destruct E2 as ([vars2 d] & ps2 & E2 & E3);
+    destruct (new_solver_var_run _ _ _ _ _ _ E2) as [R2 Hs2];
+    pose proof (new_solver_var_spec _ _ _ _ _ E2) as (B1 & B2 & B3 & B4); cbn [fst snd] in *;
+    apply bind_Done in E3; destruct E3 as (u & ps3 & _ & E3);
+    apply Done_inj in E3; destruct E3 as [E3 _]; apply pair_equal_spec in E3; destruct E3 as [<- <-];
+    (* d = S v1: the second allocation finds the table already above n_vars *)
+    assert (Hd : d = S v1);
+    [ unfold alloc_var in R2; apply pair_equal_spec in R2; destruct R2 as [_ R2];
+      rewrite app_length, repeat_length in R2; rewrite Hs1 in R2; lia
+    | subst d; repeat split; auto;
+      [ rewrite B3 by lia; exact A2
+      | intros i Hi; rewrite B3 by lia; apply A3; exact Hi ] ].
+Qed.
+
+Lemma alloc_arg_vars_ok sm vars id :
+  okm (alloc_arg_vars sm vars id)
+      (fun r => length vars <= snd r /\ nth_error (fst r) (snd r) = Some (VArg id) /\
+                (sm <> DST -> nth_error (fst r) (S (snd r)) = Some (VDisj id)) /\
+                (forall i, i < length vars -> nth_error (fst r) i = nth_error vars i)).
+Proof.
+  intros ps [vars' v] ps' E. destruct (alloc_arg_vars_spec _ _ _ _ _ _ _ E) as (H1 & _ & H3 & H4 & H5).
+  cbn [fst snd]. auto.
+Qed.
+
+Lemma tbl_var_of_nth_error t id o : nth_error t id = Some o -> tbl_var t id = o.
+Proof. unfold tbl_var. intros ->. destruct o; reflexivity. Qed.
+
+Lemma live_set_sel af e id o x y :
+  live_tbl af e -> (o <> None -> tbl_var (e_a2v e) id <> None) ->
+  live_tbl af (enc_with e (e_a2v e) (set_nth id o (e_a2s e)) x y).
+Proof.
+  intros (L1 & L2 & L3 & L4) Ho. unfold live_tbl, enc_with. cbn [e_a2v e_a2s].
+  rewrite length_set_nth. repeat split; auto; try apply L3.
+  intros id' H. destruct (Nat.eq_dec id' id) as [->|Hne].
+  - destruct (Nat.lt_ge_cases id (length (e_a2s e))) as [Hlt|Hge].
+    + rewrite tbl_var_set_eq in H by assumption. auto.
+    + exfalso. apply H. unfold tbl_var. replace (nth_error (set_nth id o (e_a2s e)) id) with (@None (option nat)); [reflexivity|].
+      symmetry. apply nth_error_None. rewrite length_set_nth. exact Hge.
+  - rewrite tbl_var_set_neq in H by congruence. auto.
+Qed.
+
+Definition tabs (af : fw) (e : denc) : Prop := core e /\ live_tbl af e.
+
+Lemma update_attacks_to_ok af e id :
+  tabs af e -> okm (update_attacks_to L af e id) (fun e' => tabs af e' /\ e_upd e' = e_upd e /\ e_sem e' = e_sem e).
+Proof.
+  intros [Hc Hl]. unfold update_attacks_to. destruct (negb (e_upd e)); [apply okm_ret; unfold tabs; auto|].
+  destruct (nth_error (e_a2s e) id) as [os|] eqn:En; [|apply okm_panic].
+  pose proof (nth_error_lt _ _ _ En) as Hid.
+  apply (okm_bind _ _ (fun e1 => tabs af e1 /\ tbl_var (e_a2s e1) id = None /\
+                                 length (e_a2s e1) = length (e_a2s e) /\ e_upd e1 = e_upd e /\ e_sem e1 = e_sem e)).
+  { destruct os as [s|].
+    - eapply okm_bind; [apply remove_selector_spec|]. intros e' (p & Hp & ->). apply okm_ret.
+      pose proof (tbl_var_of_nth_error _ _ _ En) as Hs.
+      unfold enc_with at 1. cbn [e_sem e_a2v e_a2s e_vars e_assum e_upd enc_with].
+      split; [split|].
+      + exact (core_retire e id s p Hc Hs Hp).
+      + apply (live_set_sel af e id None). exact Hl. congruence.
+      + cbn [e_a2s e_upd e_sem]. rewrite tbl_var_set_eq by exact Hid. rewrite length_set_nth. auto.
+    - apply okm_ret. pose proof (tbl_var_of_nth_error _ _ _ En) as Hs. unfold tabs. auto. }
+  intros e1 ([Hc1 Hl1] & Hn1 & Hlen1 & Hu1 & Hs1).
+  eapply okm_bind; [apply new_solver_var_spec|]. intros [vars sv] (A1 & A2 & A3 & A4). cbn [fst snd] in *.
+  destruct (negb (has_argument_with_id L af id)) eqn:Eh; [apply okm_panic|].
+  apply negb_false_iff in Eh.
+  match goal with |- okm (match ?x with _ => _ end) _ => destruct x end; [|apply okm_panic].
+  match goal with |- okm (match ?x with _ => _ end) _ => destruct x end; [|apply okm_panic].
+  apply okm_bind_any. intros _. apply okm_ret.
+  split; [split|].
+  - apply core_install; auto. lia.
+  - apply live_set_sel; [exact Hl1|]. intros _. destruct Hl1 as (_ & _ & L3 & _). apply L3. exact Eh.
+  - cbn [enc_with e_upd e_sem]. auto.
+Qed.
+
+Lemma fold_update_attacks_to_ok af ids : forall e,
+  tabs af e -> okm (fold_m (update_attacks_to L af) ids e)
+                   (fun e' => tabs af e' /\ e_upd e' = e_upd e /\ e_sem e' = e_sem e).
+Proof.
+  induction ids as [|id r IH]; intros e He; cbn [fold_m].
+  - apply okm_ret. auto.
+  - eapply okm_bind; [apply update_attacks_to_ok; exact He|]. intros e1 (H1 & H2 & H3).
+    eapply okm_weaken; [apply IH; exact H1|]. intros e2 (K1 & K2 & K3). split; [exact K1|]. split; congruence.
+Qed.
+
+(* ---- the store side of new_argument / remove_argument *)
+Lemma new_argument_fresh_slots (af : fw) l :
+  get_argument af l = None ->
+  slots (ls (Store.new_argument L leqb af l)) = slots (ls af) ++ [Some (length (slots (ls af)), l)] /\
+  max_argument_id L (Store.new_argument L leqb af l) = Some (length (slots (ls af))).
+Proof.
+  unfold Store.get_argument, Store.new_argument, max_argument_id, ls_max_id, new_label. intros H. rewrite H.
+  destruct (Nat.ltb _ _); cbn [ls slots]; (split; [reflexivity|]).
+  all: destruct (slots (ls af) ++ _) eqn:E; [destruct (slots (ls af)); discriminate|];
+    rewrite <- E, app_length; cbn [length]; f_equal; lia.
+Qed.
+
+Lemma remove_argument_slots (af af' : fw) l id :
+  get_argument af l = Some id -> Store.remove_argument L leqb af l = (af', ROk) ->
+  slots (ls af') = set_nth id None (slots (ls af)).
+Proof.
+  unfold Store.get_argument, Store.remove_argument, remove_label. intros H. rewrite H.
+  destruct (fold_left _ _ _). intros E. injection E as <-. reflexivity.
+Qed.
+
+Lemma has_arg_nth (af : fw) id :
+  has_argument_with_id L af id = true <-> nth id (slots (ls af)) None <> None.
+Proof.
+  unfold has_argument_with_id, ls_has_id. destruct (nth id (slots (ls af)) None); split; congruence.
+Qed.
+
+Lemma live_tbl_ls af af' e : ls af' = ls af -> live_tbl af e -> live_tbl af' e.
+Proof.
+  intros Hls (L1 & L2 & L3 & L4). unfold live_tbl, has_argument_with_id in *. rewrite Hls. auto.
+Qed.
+
+Lemma new_attack_ls (af : fw) a b : ls (fst (Store.new_attack L leqb af a b)) = ls af.
+Proof.
+  unfold Store.new_attack. destruct (find_label L leqb (ls af) a); [|reflexivity].
+  destruct (find_label L leqb (ls af) b); [|reflexivity]. destruct (existsb _ _); reflexivity.
+Qed.
+Lemma remove_attack_ls (af : fw) a b : ls (fst (Store.remove_attack L leqb af a b)) = ls af.
+Proof.
+  unfold Store.remove_attack. destruct (find_label L leqb (ls af) a); [|reflexivity].
+  destruct (find_label L leqb (ls af) b); [|reflexivity].
+  destruct (position _ _); [|reflexivity]. destruct (position _ _); reflexivity.
+Qed.
+
+Lemma live_push af af' e l v x y :
+  live_tbl af e -> slots (ls af') = slots (ls af) ++ [Some (length (slots (ls af)), l)] ->
+  live_tbl af' (enc_with e (e_a2v e ++ [Some v]) (e_a2s e ++ [None]) x y).
+Proof.
+  intros (L1 & L2 & L3 & L4) Hs. unfold live_tbl, enc_with. cbn [e_a2v e_a2s].
+  rewrite Hs, !app_length. cbn [length]. split; [lia|]. split; [lia|]. split.
+  - intros id. rewrite has_arg_nth, Hs.
+    destruct (Nat.lt_trichotomy id (length (slots (ls af)))) as [Hlt|[->|Hgt]].
+    + rewrite app_nth1 by assumption. rewrite tbl_var_snoc_old by lia. rewrite <- has_arg_nth. apply L3.
+    + rewrite app_nth2, Nat.sub_diag by lia. cbn [nth]. rewrite <- L1, tbl_var_snoc_new. split; congruence.
+    + rewrite nth_overflow by (rewrite app_length; cbn [length]; lia).
+      rewrite tbl_var_snoc_beyond by lia. tauto.
+  - intros id H. destruct (Nat.lt_trichotomy id (length (e_a2s e))) as [Hlt|[->|Hgt]].
+    + rewrite tbl_var_snoc_old in H by assumption. rewrite tbl_var_snoc_old by lia. auto.
+    + rewrite tbl_var_snoc_new in H. congruence.
+    + rewrite tbl_var_snoc_beyond in H by assumption. congruence.
+Qed.
+
+Lemma live_remove af af' e id a2s' x y :
+  live_tbl af e -> slots (ls af') = set_nth id None (slots (ls af)) ->
+  length a2s' = length (e_a2s e) ->
+  (forall id', tbl_var a2s' id' <> None -> id' <> id /\ tbl_var (e_a2s e) id' <> None) ->
+  live_tbl af' (enc_with e (set_nth id None (e_a2v e)) a2s' x y).
+Proof.
+  intros (L1 & L2 & L3 & L4) Hs Hlen Hsel. unfold live_tbl, enc_with. cbn [e_a2v e_a2s].
+  rewrite Hs, !length_set_nth. split; [assumption|]. split; [congruence|]. split.
+  - intros id'. rewrite has_arg_nth, Hs. destruct (Nat.eq_dec id' id) as [->|Hne].
+    + destruct (Nat.lt_ge_cases id (length (slots (ls af)))) as [Hlt|Hge].
+      * rewrite nth_set_nth_eq by assumption. rewrite tbl_var_set_eq by lia. tauto.
+      * rewrite nth_overflow by (rewrite length_set_nth; assumption).
+        split; [congruence|]. intros H. exfalso. apply H. unfold tbl_var.
+        replace (nth_error (set_nth id None (e_a2v e)) id) with (@None (option nat)); [reflexivity|].
+        symmetry. apply nth_error_None. rewrite length_set_nth. lia.
+    + rewrite nth_set_nth_neq by congruence. rewrite tbl_var_set_neq by congruence.
+      rewrite <- has_arg_nth. apply L3.
+  - intros id' H. destruct (Hsel _ H) as [Hne H']. rewrite tbl_var_set_neq by congruence. auto.
+Qed.
+
+Lemma core_drop e id :
+  core e -> core (enc_with e (set_nth id None (e_a2v e)) (e_a2s e) (e_vars e) (e_assum e)).
+Proof.
+  intros (C1 & C2 & C3 & C4 & C5). unfold core, enc_with. cbn [e_sem e_a2v e_a2s e_vars e_assum].
+  assert (Hold : forall id' v, tbl_var (set_nth id None (e_a2v e)) id' = Some v -> tbl_var (e_a2v e) id' = Some v).
+  { intros id' v H. destruct (Nat.eq_dec id' id) as [->|Hne].
+    - destruct (Nat.lt_ge_cases id (length (e_a2v e))) as [Hlt|Hge].
+      + rewrite tbl_var_set_eq in H by assumption. discriminate.
+      + apply tbl_var_lt in H. rewrite length_set_nth in H. lia.
+    - rewrite tbl_var_set_neq in H by congruence. assumption. }
+  repeat split; auto; try apply C4.
+Qed.
+
+Lemma core_kill_var e id v :
+  core e -> nth_error (e_vars e) v = Some (VArg id) -> tbl_var (e_a2v e) id = None ->
+  core (enc_with e (e_a2v e) (e_a2s e) (set_nth v VIgnored (e_vars e)) (e_assum e)).
+Proof.
+  intros (C1 & C2 & C3 & C4 & C5) Hv Hnone. unfold core, enc_with. cbn [e_sem e_a2v e_a2s e_vars e_assum].
+  repeat split; auto; try apply C4.
+  - intros id' v' H. pose proof (C1 _ _ H) as H'. rewrite nth_error_set_nth_neq; [assumption|].
+    intros <-. rewrite Hv in H'. injection H' as <-. congruence.
+  - intros Hsem id' v' H. pose proof (C2 Hsem _ _ H) as H'. rewrite nth_error_set_nth_neq; [assumption|].
+    intros E. congruence.
+  - intros id' sv H. pose proof (C3 _ _ H) as H'. rewrite nth_error_set_nth_neq; [assumption|].
+    intros E. congruence.
+Qed.
+
+Lemma enc_new_argument_ok af e l :
+  tabs af e ->
+  okm (enc_new_argument L leqb af e l)
+      (fun r => tabs (fst r) (snd r) /\ e_upd (snd r) = e_upd e /\ e_sem (snd r) = e_sem e).
+Proof.
+  intros [Hc Hl]. unfold enc_new_argument. destruct (get_argument af l) as [id|] eqn:Eg.
+  - apply okm_ret. unfold tabs. auto.
+  - destruct (new_argument_fresh_slots af l Eg) as [Hsl Hmax]. rewrite Hmax.
+    pose proof Hl as (L1 & L2 & _).
+    eapply okm_bind; [apply alloc_arg_vars_ok|]. intros [vars' v] (A1 & A2 & A3 & A4). cbn [fst snd] in *.
+    eapply okm_bind.
+    + apply update_attacks_to_ok. split.
+      * apply core_push_arg; auto; try congruence; rewrite L1; auto.
+      * eapply live_push; eassumption.
+    + intros e4 (H1 & H2 & H3). apply okm_ret. cbn [fst snd]. split; [exact H1|].
+      cbn [enc_with e_upd e_sem] in H2, H3. auto.
+Qed.
+
+Lemma enc_attack_ok_aux af af' e to_id :
+  tabs af e -> ls af' = ls af ->
+  okm (update_attacks_to L af' e to_id) (fun e' => tabs af' e' /\ e_upd e' = e_upd e /\ e_sem e' = e_sem e).
+Proof. intros [Hc Hl] Hls. apply update_attacks_to_ok. split; [exact Hc|]. eapply live_tbl_ls; eassumption. Qed.
+
+Definition enc3_ok (e : denc) (r : fw * denc * result) : Prop :=
+  tabs (fst (fst r)) (snd (fst r)) /\ e_upd (snd (fst r)) = e_upd e /\ e_sem (snd (fst r)) = e_sem e.
+
+Lemma enc_new_attack_ok af e a b : tabs af e -> okm (enc_new_attack L leqb af e a b) (enc3_ok e).
+Proof.
+  intros Ht. unfold enc_new_attack. pose proof (new_attack_ls af a b) as Hls.
+  destruct (Store.new_attack L leqb af a b) as [af' [| |]]; cbn [fst] in Hls.
+  - destruct (get_argument af' b); [|apply okm_panic].
+    eapply okm_bind; [apply (enc_attack_ok_aux af af' e _ Ht Hls)|]. intros e' H. apply okm_ret. exact H.
+  - apply okm_ret. unfold enc3_ok. cbn [fst snd]. auto.
+  - apply okm_panic.
+Qed.
+Lemma enc_remove_attack_ok af e a b : tabs af e -> okm (enc_remove_attack L leqb af e a b) (enc3_ok e).
+Proof.
+  intros Ht. unfold enc_remove_attack. pose proof (remove_attack_ls af a b) as Hls.
+  destruct (Store.remove_attack L leqb af a b) as [af' [| |]]; cbn [fst] in Hls.
+  - destruct (get_argument af' b); [|apply okm_panic].
+    eapply okm_bind; [apply (enc_attack_ok_aux af af' e _ Ht Hls)|]. intros e' H. apply okm_ret. exact H.
+  - apply okm_ret. unfold enc3_ok. cbn [fst snd]. auto.
+  - apply okm_panic.
+Qed.
+
+Lemma live_remove' af af' e e' id :
+  live_tbl af e -> slots (ls af') = set_nth id None (slots (ls af)) ->
+  e_a2v e' = set_nth id None (e_a2v e) -> length (e_a2s e') = length (e_a2s e) ->
+  (forall id', tbl_var (e_a2s e') id' <> None -> id' <> id /\ tbl_var (e_a2s e) id' <> None) ->
+  live_tbl af' e'.
+Proof.
+  intros H H0 H1 H2 H3.
+  pose proof (live_remove af af' e id (e_a2s e') (e_vars e') (e_assum e') H H0 H2 H3) as K.
+  unfold live_tbl, enc_with in *. cbn [e_a2v e_a2s] in K. rewrite H1. exact K.
+Qed.
+
+Lemma enc_remove_argument_ok af e l : tabs af e -> okm (enc_remove_argument L leqb af e l) (enc3_ok e).
+Proof.
+  intros [Hc Hl]. unfold enc_remove_argument. destruct (get_argument af l) as [arg_id|] eqn:Eg.
+  2:{ apply okm_ret. unfold enc3_ok, tabs. cbn [fst snd]. auto. }
+  destruct (Store.remove_argument L leqb af l) as [af' [| |]] eqn:Er;
+    try (apply okm_ret; unfold enc3_ok, tabs; cbn [fst snd]; auto).
+  pose proof (remove_argument_slots af af' l arg_id Eg Er) as Hsl.
+  destruct (tbl_var (e_a2v e) arg_id) as [v|] eqn:Ev; [|apply okm_panic].
+  pose proof Hc as (C1 & C2 & C3 & C4 & C5).
+  pose proof (C1 _ _ Ev) as Htv. pose proof (tbl_var_lt _ _ _ Ev) as Hid.
+  set (e1 := enc_with e (set_nth arg_id None (e_a2v e)) (e_a2s e) (e_vars e) (e_assum e)).
+  assert (Hc1 : core e1) by (apply core_drop; exact Hc).
+  apply (okm_bind _ _ (fun e2 => core e2 /\ e_a2v e2 = set_nth arg_id None (e_a2v e) /\
+            length (e_a2s e2) = length (e_a2s e) /\
+            (forall id', tbl_var (e_a2s e2) id' <> None -> id' <> arg_id /\ tbl_var (e_a2s e) id' <> None) /\
+            nth_error (e_vars e2) v = Some (VArg arg_id) /\ e_upd e2 = e_upd e /\ e_sem e2 = e_sem e)).
+  { destruct (nth_error (e_a2s e1) arg_id) as [[s|]|] eqn:En; [| |apply okm_panic].
+    - eapply okm_bind; [apply remove_selector_spec|]. intros e' (p & Hp & ->). apply okm_ret.
+      pose proof (tbl_var_of_nth_error _ _ _ En) as Hs.
+      pose proof (nth_error_lt _ _ _ En) as Hlt.
+      unfold enc_with at 1. cbn [e_sem e_a2v e_a2s e_vars e_assum e_upd enc_with].
+      split; [exact (core_retire e1 arg_id s p Hc1 Hs Hp)|].
+      cbn [e1 enc_with e_sem e_a2v e_a2s e_vars e_assum e_upd] in *.
+      rewrite length_set_nth.
+      split; [reflexivity|]. split; [reflexivity|]. split.
+      { intros id' H. destruct (Nat.eq_dec id' arg_id) as [->|Hne].
+        - rewrite tbl_var_set_eq in H by exact Hlt. congruence.
+        - rewrite tbl_var_set_neq in H by congruence. auto. }
+      split; [|auto].
+      rewrite nth_error_set_nth_neq; [exact Htv|]. intros ->. pose proof (C3 _ _ Hs). congruence.
+    - apply okm_ret. pose proof (tbl_var_of_nth_error _ _ _ En) as Hs.
+      cbn [e1 enc_with e_sem e_a2v e_a2s e_vars e_assum e_upd] in *.
+      split; [exact Hc1|]. split; [reflexivity|]. split; [reflexivity|]. split; [|auto].
+      intros id' H. split; [|exact H]. intros ->. congruence. }
+  intros e2 (Hc2 & Ha2v & Hlen & Hsel & Hv2 & Hu2 & Hs2).
+  destruct (Nat.ltb v (length (e_vars e2))); [|apply okm_panic].
+  apply okm_bind_any. intros _.
+  eapply okm_bind.
+  - apply fold_update_attacks_to_ok. split.
+    + apply (core_kill_var e2 arg_id v Hc2 Hv2). rewrite Ha2v. apply tbl_var_set_eq. exact Hid.
+    + eapply (live_remove' af af' e _ arg_id Hl Hsl); cbn [enc_with e_a2v e_a2s]; assumption.
+  - intros e4 (H1 & H2 & H3). apply okm_ret. unfold enc3_ok. cbn [fst snd]. split; [exact H1|].
+    cbn [enc_with e_upd e_sem] in H2, H3. split; congruence.
+Qed.
+
+Definition st_ok (e : denc) (st : fw * denc * list nat) : Prop :=
+  tabs (fst (fst st)) (snd (fst st)) /\ e_upd (snd (fst st)) = e_upd e /\ e_sem (snd (fst st)) = e_sem e.
+
+Lemma std_replay_ok af e upd ev : tabs af e -> okm (std_replay L leqb (af, e, upd) ev) (st_ok e).
+Proof.
+  intros Ht. unfold std_replay. destruct ev as [l|l|a b|a b|x y z|x y z].
+  - eapply okm_bind; [apply enc_new_argument_ok; exact Ht|]. intros r Hr.
+    apply okm_bind_any. intros id. apply okm_ret. exact Hr.
+  - apply okm_bind_any. intros arg_id.
+    eapply okm_bind; [apply enc_remove_argument_ok; exact Ht|]. intros r Hr.
+    apply okm_unwrap_ok'. intros p Hp. apply okm_ret. subst r. exact Hr.
+  - eapply okm_bind; [apply enc_new_attack_ok; exact Ht|]. intros r Hr.
+    apply okm_unwrap_ok'. intros p Hp. apply okm_bind_any. intros id. apply okm_ret. subst r. exact Hr.
+  - eapply okm_bind; [apply enc_remove_attack_ok; exact Ht|]. intros r Hr.
+    apply okm_unwrap_ok'. intros p Hp. apply okm_bind_any. intros id. apply okm_ret. subst r. exact Hr.
+  - apply okm_ret. unfold st_ok. cbn [fst snd]. auto.
+  - apply okm_ret. unfold st_ok. cbn [fst snd]. auto.
+Qed.
+
+Lemma fold_std_replay_ok evs : forall af e upd,
+  tabs af e -> okm (fold_m (std_replay L leqb) evs (af, e, upd)) (st_ok e).
+Proof.
+  induction evs as [|ev r IH]; intros af e upd Ht; cbn [fold_m].
+  - apply okm_ret. unfold st_ok. cbn [fst snd]. auto.
+  - eapply okm_bind; [apply std_replay_ok; exact Ht|]. intros [[af1 e1] upd1] (H1 & H2 & H3). cbn [fst snd] in *.
+    eapply okm_weaken; [apply IH; exact H1|]. intros st (K1 & K2 & K3). split; [exact K1|]. split; congruence.
+Qed.
+
+(* the encoder state of a buffered standard solver between two calls *)
+Definition enc_inv (af : fw) (b : dbuf) : Prop :=
+  match b_enc L b with
+  | XStd e => tables_ok L af e /\ e_upd e = false
+  | XAtt _ => True
+  end.
+
+Lemma update_encoding_tables af b :
+  enc_inv af b -> okm (update_encoding L leqb af b) (fun r => enc_inv (fst r) (snd r)).
+Proof.
+  unfold enc_inv, update_encoding. destruct (b_enc L b) as [e|e] eqn:Ex.
+  - intros [Ht Hu]. apply tables_ok_split in Ht.
+    eapply okm_bind; [apply fold_std_replay_ok; exact Ht|]. intros [[af' e'] upd] (H1 & H2 & H3). cbn [fst snd] in *.
+    eapply okm_bind.
+    + apply fold_update_attacks_to_ok. destruct H1 as [Hc Hl]. split; [exact Hc|exact Hl].
+    + intros e'' (K1 & K2 & K3). apply okm_ret. cbn [fst snd buf_with b_enc].
+      split; [apply tables_ok_split; exact K1|reflexivity].
+  - intros _. apply okm_bind_any. intros st. apply okm_bind_any. intros e'. apply okm_ret.
+    cbn [fst snd buf_with b_enc]. exact I.
+Qed.
+
+(* ---- the shape of a query's effect, generic in what is known about update_encoding *)
+Definition pushed (P : fw * dbuf -> Prop) (s : dsolver) (r : dsolver * answer_t) : Prop :=
+  fst r = s \/ exists af buf ev, P (af, buf) /\
+    fst r = {| s_kind := s_kind L s; s_af := af; s_buf := buf_push L buf ev |}.
+
+Lemma dc_query_shape oracle s l P :
+  okm (update_encoding L leqb (s_af L s) (s_buf L s)) P -> okm (dc_query oracle L leqb s l) (pushed P s).
+Proof.
+  intros HP. unfold dc_query.
+  destruct (is_cred L leqb (s_buf L s) l) as [[b|] [e|]];
+    try (apply okm_ret; left; reflexivity).
+  all: eapply okm_bind; [exact HP|]; intros [af buf] Henc;
+    apply okm_bind_any; intros asm; apply okm_bind_any; intros v; apply okm_bind_any; intros [m|];
+    [apply okm_bind_any; intros acc|]; apply okm_ret; right; exists af, buf; eexists; (split; [exact Henc|reflexivity]).
+Qed.
+Lemma st_ds_query_shape oracle s l P :
+  okm (update_encoding L leqb (s_af L s) (s_buf L s)) P -> okm (st_ds_query oracle L leqb s l) (pushed P s).
+Proof.
+  intros HP. unfold st_ds_query.
+  destruct (is_skep L leqb (s_buf L s) l) as [[b|] [e|]];
+    try (apply okm_ret; left; reflexivity).
+  all: eapply okm_bind; [exact HP|]; intros [af buf] Henc;
+    apply okm_bind_any; intros asm; apply okm_bind_any; intros v; apply okm_bind_any; intros [m|];
+    [apply okm_bind_any; intros acc|apply okm_bind_any; intros id; apply okm_bind_any; intros refused];
+    apply okm_ret; right; exists af, buf; eexists; (split; [exact Henc|reflexivity]).
+Qed.
+Lemma pr_ds_query_shape oracle fuel s l P :
+  okm (update_encoding L leqb (s_af L s) (s_buf L s)) P -> okm (pr_ds_query oracle L leqb fuel s l) (pushed P s).
+Proof.
+  intros HP. unfold pr_ds_query.
+  destruct (is_skep L leqb (s_buf L s) l) as [[b|] [e|]];
+    try (apply okm_ret; left; reflexivity).
+  all: eapply okm_bind; [exact HP|]; intros [af buf] Henc;
+    destruct (b_enc L buf); [|apply okm_panic];
+    apply okm_bind_any; intros nv; apply okm_bind_any; intros arg_id; apply okm_bind_any;
+    intros [[[[k result] acc_b] ref_b] ext];
+    apply okm_bind_any; intros acc; apply okm_bind_any; intros refused; apply okm_bind_any; intros _;
+    apply okm_ret; right; exists af, buf; eexists; (split; [exact Henc|reflexivity]).
+Qed.
+Lemma dyn_query_shape oracle thr fuel s q cert l P :
+  okm (update_encoding L leqb (s_af L s) (s_buf L s)) P ->
+  okm (dyn_query oracle L leqb thr fuel s q cert l) (pushed P s).
+Proof.
+  intros HP. unfold dyn_query.
+  assert (Hstrip : forall m : Prog.M (dsolver * answer_t),
+            okm m (pushed P s) ->
+            okm (r <- m ;; ret (fst r, if cert then snd r else (fst (snd r), None))) (pushed P s)).
+  { intros m Hm. eapply okm_bind; [exact Hm|]. intros r Hr. apply okm_ret. exact Hr. }
+  destruct (s_kind L s) eqn:Ek, q; try apply okm_panic;
+    try (apply Hstrip; first [apply dc_query_shape|apply st_ds_query_shape|apply pr_ds_query_shape]; exact HP).
+  all: apply okm_bind_any; intros id; apply okm_bind_any; intros o; apply okm_bind_any; intros a;
+    apply okm_ret; left; reflexivity.
+Qed.
+
+Lemma enc_inv_reach k s os : reach k s os -> not_dummy k -> enc_inv (s_af L s) (s_buf L s).
+Proof.
+  induction 1 as [ps ps' s Hn|s os o Hr IH|s os oracle thr fuel q cert l ps ps' s' a Hr IH Hq]; intros Hnd.
+  - assert (T : forall id, tbl_var [] id = None) by (intros [|id]; reflexivity).
+    assert (H0 : forall sm, enc_inv (empty_fw L leqb)
+              {| b_buffer := []; b_next := 0; b_enc := XStd (enc_enable (enc_new sm) false); b_shadow := empty_fw L leqb |}).
+    { intros sm. unfold enc_inv. cbn [b_enc]. split; [|reflexivity]. apply tables_ok_split. split.
+      - unfold core, enc_enable, enc_new. cbn [e_sem e_a2v e_a2s e_vars e_assum].
+        split; [intros id v H; rewrite T in H; discriminate|].
+        split; [intros _ id v H; rewrite T in H; discriminate|].
+        split; [intros id v H; rewrite T in H; discriminate|].
+        split; [|constructor].
+        intros x. split; [intros []|]. intros (id & sv & H & _). rewrite T in H. discriminate.
+      - unfold live_tbl, enc_enable, enc_new. cbn [e_a2v e_a2s].
+        split; [reflexivity|]. split; [reflexivity|]. split.
+        + intros id. rewrite has_arg_nth, T. cbn. destruct id; split; congruence.
+        + intros id H. rewrite T in H. congruence. }
+    unfold dyn_new in Hn. destruct k.
+    1-3: apply bind_Done in Hn; destruct Hn as (u & ps1 & _ & Hn); apply Done_inj in Hn; destruct Hn as [<- _];
+         cbn [s_af s_buf]; apply H0.
+    1-2: apply bind_Done in Hn; destruct Hn as (u & ps1 & _ & Hn); apply Done_inj in Hn; destruct Hn as [<- _];
+         cbn [s_af s_buf]; unfold enc_inv; cbn [b_enc]; exact I.
+    destruct Hnd.
+  - specialize (IH Hnd). pose proof (reach_frame_inv _ _ _ Hr) as [Hk _ _ _].
+    pose proof (buf_update_spec (s_buf L s) o) as Hb. cbv zeta in Hb. destruct Hb as (_ & _ & _ & Hen & _).
+    unfold dyn_update. rewrite Hk. unfold enc_inv in *.
+    destruct k; try contradiction;
+      destruct (buf_update L leqb (s_buf L s) o) as [b r]; cbn [fst snd s_af s_buf] in *; rewrite Hen; exact IH.
+  - specialize (IH Hnd).
+    pose proof (dyn_query_shape oracle thr fuel s q cert l _ (update_encoding_tables _ _ IH) _ _ _ Hq) as Hp.
+    unfold pushed in Hp. cbn [fst] in Hp.
+    destruct Hp as [->|(af & buf & ev & Hinv & ->)]; [exact IH|].
+    cbn [s_af s_buf fst snd] in *. unfold enc_inv, buf_push, buf_with in *. cbn [b_enc]. exact Hinv.
+Qed.
+
+(* Part D, assembled: in every reachable state of the complete, stable and preferred dynamic solvers
+   the encoder's tables are consistent with the solver's own framework *)
+Theorem std_tables_reach k s os e :
+  reach k s os -> b_enc L (s_buf L s) = XStd e -> not_dummy k ->
+  tables_ok L (s_af L s) e /\ e_upd e = false.
+Proof.
+  intros Hr He Hnd. pose proof (enc_inv_reach _ _ _ Hr Hnd) as H. unfold enc_inv in H. rewrite He in H. exact H.
+Qed.
+
+(* consequences of the table invariant: the variables in use never collide *)
+Theorem tables_distinct (af : fw) e :
+  tables_ok L af e ->
+  (forall i j v, tbl_var (e_a2v e) i = Some v -> tbl_var (e_a2v e) j = Some v -> i = j) /\
+  (forall i j v, tbl_var (e_a2s e) i = Some v -> tbl_var (e_a2s e) j = Some v -> i = j) /\
+  (forall i j v w, tbl_var (e_a2v e) i = Some v -> tbl_var (e_a2s e) j = Some w -> v <> w) /\
+  (e_sem e <> DST -> forall i j v w, tbl_var (e_a2v e) i = Some v -> tbl_var (e_a2v e) j = Some w -> S v <> w) /\
+  (e_sem e <> DST -> forall i j v w, tbl_var (e_a2v e) i = Some v -> tbl_var (e_a2s e) j = Some w -> S v <> w) /\
+  (forall i v, tbl_var (e_a2v e) i = Some v -> v < length (e_vars e)) /\
+  (forall i w, tbl_var (e_a2s e) i = Some w -> w < length (e_vars e)).
+Proof.
+  intros [_ _ T2 T7 T3 _ _ _ _]. repeat split.
+  - intros i j v Hi Hj. pose proof (T2 _ _ Hi). pose proof (T2 _ _ Hj). congruence.
+  - intros i j v Hi Hj. pose proof (T3 _ _ Hi). pose proof (T3 _ _ Hj). congruence.
+  - intros i j v w Hi Hj ->. pose proof (T2 _ _ Hi). pose proof (T3 _ _ Hj). congruence.
+  - intros Hs i j v w Hi Hj <-. pose proof (T7 Hs _ _ Hi). pose proof (T2 _ _ Hj). congruence.
+  - intros Hs i j v w Hi Hj <-. pose proof (T7 Hs _ _ Hi). pose proof (T3 _ _ Hj). congruence.
+  - intros i v H. eapply nth_error_lt. apply (T2 _ _ H).
+  - intros i w H. eapply nth_error_lt. apply (T3 _ _ H).
+Qed.
 End DynProofs.
